@@ -121,9 +121,10 @@ def replay_chunk(sub, chunk):
             obs, info = run_once(case, fl, k, dest)
             if k == 0:
                 total = obs["nops"]
-                if info["raised"]:
-                    sub.drift("apply() of a transform the model calls conflict-free raised %s" % info["raised"],
-                              {"m": case["m"], "flavour": fl})
+                if info["raised"]:          # apply() failed although no fault was injected: judged like any failed apply
+                    obs["phase"] = "spontaneous"
+                    rows.append({"ci": ci, "fl": fl, "k": k, "obs": obs, "info": info})
+                    sub.count(1)
                     break
             elif not info["raised"]:
                 sub.drift("fault %d/%d did not make apply() raise" % (k, total), {"m": case["m"], "flavour": fl, "info": info})
